@@ -140,6 +140,29 @@ def max_inrange(frames, sr, memory):
     return worst
 
 
+class ImplError(Exception):
+    """trackpy raised something other than SubnetOversizeException on a valid input."""
+    def __init__(self, exc, call):
+        Exception.__init__(self, '%s raised %r' % (call.get('fn'), exc))
+        self.exc, self.call = exc, call
+
+
+def replay_impl_call(call):
+    """Re-run a recorded failing call; returns the exception text or None."""
+    from fractions import Fraction
+    assert call['fn'] == 'trackpy.link_iter'
+    sr = call['search_range']
+    sr = tuple(Fraction(x) for x in sr) if isinstance(sr, list) else Fraction(sr)
+    frames = [np.array(f, dtype=float).reshape(len(f), -1) for f in call['frames']]
+    ad = tuple(Fraction(x) for x in call['adaptive']) if call.get('adaptive') else None
+    try:
+        run_link_iter(frames, sr, memory=call['memory'], link_strategy=call['link_strategy'], max_size=call['max_size'],
+                      adaptive=ad, neighbor_strategy=call.get('neighbor_strategy'), enumerate_t=call.get('enumerate_t'))
+    except ImplError as e:
+        return repr(e.exc)
+    return None
+
+
 def run_link_iter(frames, sr, memory=0, link_strategy=None, max_size=None, adaptive=None, predictor=None,
                   enumerate_t=None, neighbor_strategy=None):
     """Drive trackpy.link_iter frame by frame.  Returns list of label lists,
@@ -176,6 +199,15 @@ def run_link_iter(frames, sr, memory=0, link_strategy=None, max_size=None, adapt
             except SubnetOversizeException:
                 out.append(None)
                 break
+            except Exception as e:
+                # the implementation itself failed on a valid movie: that movie is the failing input
+                raise ImplError(e, dict(fn='trackpy.link_iter', frames=[np.asarray(f).tolist() for f in frames],
+                                        search_range=[str(x) for x in sr] if isinstance(sr, tuple) else str(sr),
+                                        memory=memory, link_strategy=link_strategy, neighbor_strategy=neighbor_strategy,
+                                        max_size=max_size, adaptive=[str(x) for x in adaptive] if adaptive is not None else None,
+                                        predictor=repr(predictor) if predictor is not None else None,
+                                        enumerate_t=list(enumerate_t) if enumerate_t is not None else None,
+                                        labels_before_the_failure=out))
     finally:
         Linker.MAX_SUB_NET_SIZE, Linker.MAX_SUB_NET_SIZE_ADAPTIVE = old
     return out
